@@ -148,6 +148,35 @@ class DefaultActivation4(DefaultActivation):
         return 'DefaultActivation4'
 
 
+class NanOrder(DefaultActivation):
+    """A plugin whose order is not a number one can sort by."""
+
+    def __init__(self, config=None):
+        DefaultActivation.__init__(self, config)
+        self._rname = 'NanOrder'
+        self.attrs = {'deco_nan_order': 'n'}
+
+    @property
+    def name(self):
+        return 'NanOrder'
+
+    def order(self):
+        return float('nan')
+
+
+class NamelessRes(ResA):
+    """A resource provider written without calling Plugin.__init__: it works, but it has no name to give."""
+
+    def __init__(self, config=None):
+        self.config = config
+        self._setup()
+        self.attrs = {'res_NamelessRes': 1}
+
+    @property
+    def name(self):
+        return self._name       # never set
+
+
 class OrderRaises(DefaultActivation):
     """A plugin whose declared order cannot be obtained."""
 
